@@ -1,6 +1,7 @@
 """C05 — mutations are all-or-nothing under storage faults (kernel level): every storage failure is propagated
 as an error by every function on the mutation path (O1), no-fault runs succeed (O2), callbacks run iff commit (O3)."""
 from props import C20 as _c20
+from props import C02 as _c02
 OVR = {"github.com/sourcenetwork/defradb/client.CborNil": "bytes:f6"}
 OPS = ["lww", "lww-deleted", "counter", "composite-delete", "composite-active"]
 
@@ -19,6 +20,12 @@ def head_jobs(tier):
              "_obligation": "O1+O2", "_covers": ["ran"], "unwind": 30} for i, nm in enumerate(names)]
 
 
+def merge_jobs(tier):
+    return [{"id": f"O1.merge.{kn}", "func": "VerifH_C05_MergeFaults",
+             "conf": {"kind": k, "window": 60, "dag": "-|0", "orders": "two", "shortid": 0}, "_obligation": "O1+O2", "_covers": ["ran"],
+             "unwind": 120, "reset_mode": True} for k, kn in ((1, "counter"), (0, "register"))]
+
+
 def seq_jobs(tier):
     return [{"id": "O1.sequence", "func": "VerifH_C14_FaultPropagation", "conf": {}, "_obligation": "O1+O2", "_covers": ["ran"]}]
 
@@ -34,6 +41,7 @@ PROPERTY = {
          "jobs": crdt_jobs, "overrides": OVR, "unwind": 24},
         {"name": "block", "pkg": "internal/core/block", "files": ["zz_verif_block.go"], "common": ["intrinsics", "kvmodel"],
          "jobs": head_jobs, "overrides": OVR, "unwind": 30},
+        dict(_c02.SUITE, name="merge", jobs=merge_jobs),
         {"name": "sequence", "pkg": "internal/db/sequence", "files": ["zz_verif_c14.go"], "common": ["intrinsics", "kvmodel"], "jobs": seq_jobs},
         {"name": "txn", "pkg": "internal/datastore", "files": ["zz_verif_txn.go"], "common": ["intrinsics", "kvmodel"], "jobs": txn_jobs},
     ],
